@@ -208,7 +208,7 @@ def check_request(gw, req, cfg, V, st):
                 V("error-body-lacks-the-error", "%r" % res["body"][:200], req, cfg)
     if why == "meta" and status == 200:
         md = json.loads(res["body"].decode("utf-8"))
-        if set(md.get("methods", [])) != {"m", "fail", "ow"} or set(md.get("attributes", [])) != {"attr"}:
+        if set(md.get("methods", [])) != {"m", "fail", "ow", "drop"} or set(md.get("attributes", [])) != {"attr"}:
             V("wrong-metadata", "%r" % (md,), req, cfg)
     key, pattern = cfg
     if pattern and gw.hidden_connections() != h0:
@@ -246,6 +246,23 @@ def task(unit):
                 oc = check_request(gw, probe, cfg, V, st)
                 if oc[0] not in expected(probe, cfg)["status"]:
                     V("request-changes-behaviour-of-next-request|%s" % oc[0], "after %r the probe answered %r" % (a, oc), probe, cfg)
+            # a network fault after delivery: the method runs and the connection to the object is reset before its reply can be written.
+            # The request was forwarded once; the HTTP client gets an error (500, or the WSGI server's own 500 when the app raises), never a
+            # success, and the method is not run a second time; the next request is served normally.
+            if pairs and expected(probe, cfg)["invoke"] is not None:
+                for o in gw.objs.values():
+                    del o.log[:]
+                st.executions += 1
+                faulted = ("GET", "/pyro/http.a/drop", "x=1", KEY, None)
+                res = gw.request(faulted, cfg)
+                inv = [(lab, e[0]) for lab, o in gw.objs.items() for e in o.log]
+                if inv != [("a", "drop")]:
+                    V("forwarded-unfaithfully|drop|%s" % ("twice" if len(inv) > 1 else "none"), "a call whose reply was lost to a connection reset was invoked %r" % (inv,), faulted, cfg)
+                if "crash" not in res and res.get("status") != 500:
+                    V("wrong-status|lost-reply|%s-instead-of-500" % res.get("status"), "body %s" % show(res.get("body"), 120), faulted, cfg)
+                oc = check_request(gw, probe, cfg, V, st)
+                if oc[0] not in expected(probe, cfg)["status"]:
+                    V("request-changes-behaviour-of-next-request|%s|after-lost-reply" % oc[0], "after the faulted request the probe answered %r" % (oc,), probe, cfg)
             # histories with a change of the name server in between: every request resolves the name anew
             if pairs:
                 warm = ("GET", "/pyro/http.a/m", "x=1", KEY, None)
